@@ -34,7 +34,11 @@ def parseLinkDestination(string: str, pos: int, maximum: int) -> _Result:
                 result.ok = True
                 return result
 
-            if code == 0x5C and pos + 1 < maximum:  # \
+            if (
+                code == 0x5C  # \
+                and pos + 1 < maximum
+                and charCodeAt(string, pos + 1) != 0x0A
+            ):
                 pos += 2
                 continue
 
@@ -59,8 +63,10 @@ def parseLinkDestination(string: str, pos: int, maximum: int) -> _Result:
         if code == 0x5C and pos + 1 < maximum:
             if charCodeAt(string, pos + 1) == 0x20:
                 break
-            pos += 2
-            continue
+            # a backslash does not escape a line ending
+            if charCodeAt(string, pos + 1) != 0x0A:
+                pos += 2
+                continue
 
         if code == 0x28:  # /* ( */)
             level += 1
